@@ -169,6 +169,12 @@ pub fn axis_family(n: usize, count: usize, seed: u64) -> Vec<Axis> {
     }
     // geometric ratio 2, negative origin
     push!("geometric2", r(-3, 2), (0..m).map(|i| r(1 << i, 2)).collect(), false);
+    if n >= 9 {
+        // one interval 1000 times the others at either end: the evenly-spaced index guess lands up to n-2 intervals
+        // away from the bracket (a search limited to a window around the guess shows only here)
+        push!("huge-last", r(0, 1), (0..m).map(|i| if i == m - 1 { r(1000, 1) } else { r(1, 1) }).collect(), false);
+        push!("huge-first", r(-3, 1), (0..m).map(|i| if i == 0 { r(2000, 1) } else { r(1, 2) }).collect(), false);
+    }
     // uniform
     push!("uniform", r(0, 1), vec![r(1, 1); m], true);
     // partially equal intervals (a shortcut keyed on "the axis looks evenly spaced" must not fire here): all equal
